@@ -25,6 +25,10 @@ CHECKS = {
          "Generated int columns at the edges of u8/u16/u32/i64 and their offset encodings, expression trees of depth <= 3 with + - * / % per row and under SUM (ungrouped and grouped, 1-5 partitions), judged against i128 arithmetic: exact where every step is representable, Overflow where the exact value leaves i64 or a divisor is 0, either where only an intermediate overflows.",
          "DESIGN.md 4 C06", "i128 reference; queries in which a value equals 2^63-1 (the reserved NULL marker, outside the property's domain) are not judged; SUM may fail whenever the sum of absolute values exceeds i64.",
          "property-based testing (proptest) with an exact-arithmetic reference (i128)"),
+ "C02": ("exploration",
+         "Metamorphic: one generated logical table is realised under two independently drawn physical layouts (batch split, flush points, combine factor, lz4, sub-partition size, batch_size, threads, memory/disk/reopened/evicted) and queried with filter, order/limit and aggregate queries; both realisations must give the same outcome class and both are anchored to the reference evaluator, so `equally wrong` does not pass.",
+         "DESIGN.md 4 C02", "Same trusted base as C03/C04/C05; query shapes that are known findings under either layout are excluded and counted.",
+         "property-based testing (proptest), metamorphic relation between two physical realisations anchored to a reference evaluator"),
 }
 
 NOT_YET = {
